@@ -16,8 +16,8 @@ let show_str = function [] -> "-" | s -> hex_of_str s
 let tx_of t d a s = { tx_t = zatom t; tx_done = batom d; tx_acct = acct_of (atom a); tx_desc = bytes_of (atom s) }
 
 let ev_of = function
-  | L [A "i"; t; d; a; s] -> In (tx_of t d a s)
-  | L [A "o"; t; d; a; s] -> Out (tx_of t d a s)
+  | L [A "i"; t; d; a; s] -> CheckIn (tx_of t d a s)
+  | L [A "o"; t; d; a; s] -> CheckOut (tx_of t d a s)
   | _ -> failwith "event"
 
 let show_post p =
